@@ -8,9 +8,9 @@
 (* the BOSS x-jump, and its default grid is xmin..xmax in unit steps.      *)
 (*                                                                         *)
 (* Everything is exact arithmetic over the rationals (module Rat:          *)
-(* <<num, den>>, den > 0, lowest terms).  TLC integers are 32-bit and      *)
-(* overflow is a loud error, so the arithmetic below cancels common        *)
-(* factors BEFORE multiplying (QAdd, QMul); MaxDeg says up to which degree *)
+(* <<num, den>>, den > 0, lowest terms).  TLC integers are 32-bit, so the  *)
+(* arithmetic below cancels common factors BEFORE multiplying and yields   *)
+(* NaR when a result cannot be represented; MaxDeg says up to which degree *)
 (* an abscissa p/q can be used.                                            *)
 (*                                                                         *)
 (* Nothing here is taken from pydl's code: bases are given three times     *)
@@ -21,21 +21,42 @@
 EXTENDS Rat, FiniteSets, TLC
 
 (* ---------------- overflow-averse rational arithmetic ------------------- *)
-QAdd(a, b) == LET g == GCD(a[2], b[2])
-              IN Norm(a[1] * (b[2] \div g) + b[1] * (a[2] \div g), (a[2] \div g) * b[2])
-QMul(a, b) == IF a[1] = 0 \/ b[1] = 0 THEN Zero
-              ELSE LET g1 == GCD(Abs(a[1]), b[2])
-                       g2 == GCD(Abs(b[1]), a[2])
-                   IN Norm((a[1] \div g1) * (b[1] \div g2), (a[2] \div g2) * (b[2] \div g1))
+(* Common factors are cancelled before multiplying.  A result whose numerator or denominator *)
+(* would not fit into TLC's 32-bit integers is NaR = <<0, 0>> ("not a representable          *)
+(* rational"); NaR propagates through every operation and is never equal to a rational, so   *)
+(* a law that meets it fails loudly (model checking) or the record is set aside (traces).    *)
+Big == 2147483647
+NaR == <<0, 0>>
+IsNaR(q) == q[2] = 0
+Proper(q) == q[2] > 0
+MulFits(a, b) == a = 0 \/ b = 0 \/ Abs(a) <= Big \div Abs(b)
+AddFits(a, b) == IF (a >= 0) # (b >= 0) THEN TRUE ELSE Abs(a) <= Big - Abs(b)
+QAdd(a, b) ==
+  IF IsNaR(a) \/ IsNaR(b) THEN NaR
+  ELSE LET g == GCD(a[2], b[2])
+           fa == b[2] \div g
+           fb == a[2] \div g
+       IN IF MulFits(a[1], fa) /\ MulFits(b[1], fb) /\ MulFits(fb, b[2]) /\ AddFits(a[1] * fa, b[1] * fb)
+          THEN Norm(a[1] * fa + b[1] * fb, fb * b[2])
+          ELSE NaR
+QMul(a, b) ==
+  IF IsNaR(a) \/ IsNaR(b) THEN NaR
+  ELSE IF a[1] = 0 \/ b[1] = 0 THEN Zero
+  ELSE LET g1 == GCD(Abs(a[1]), b[2])
+           g2 == GCD(Abs(b[1]), a[2])
+           n1 == a[1] \div g1  n2 == b[1] \div g2
+           d1 == a[2] \div g2  d2 == b[2] \div g1
+       IN IF MulFits(n1, n2) /\ MulFits(d1, d2) THEN Norm(n1 * n2, d1 * d2) ELSE NaR
 QSub(a, b) == QAdd(a, Neg(b))
-QDiv(a, b) == QMul(a, Inv(b))
+QDiv(a, b) == IF IsNaR(b) \/ b[1] = 0 THEN NaR ELSE QMul(a, Inv(b))
 QLt(a, b) == QSub(a, b)[1] < 0
 QLe(a, b) == QSub(a, b)[1] <= 0
 QAbs(a) == <<Abs(a[1]), a[2]>>
 Two == <<2, 1>>
 Half == <<1, 2>>
-QMin(a, b) == IF QLt(b, a) THEN b ELSE a
-QMax(a, b) == IF QLt(a, b) THEN b ELSE a
+QMin(a, b) == IF IsNaR(a) \/ IsNaR(b) THEN NaR ELSE IF QLt(b, a) THEN b ELSE a
+QMax(a, b) == IF IsNaR(a) \/ IsNaR(b) THEN NaR ELSE IF QLt(a, b) THEN b ELSE a
+AllProper(s) == \A k \in 1..Len(s) : Proper(s[k])
 
 RECURSIVE QSum(_)
 QSum(s) == IF s = <<>> THEN Zero ELSE QAdd(s[1], QSum(Tail(s)))
